@@ -92,12 +92,48 @@ CHECKS = {
   note='Renew/refresh economics belong to C16. The reference contractor re-verifies signatures, so a dropped server-side check shows up as a failed contractor call. Amounts kept below 2^31 in what TLC sees; Go-side arithmetic exact.',
   technique='TLA+ spec Host.tla + TLC exhaustive; edge-cover replay into the real rhp4.Server over the in-memory transport; TLC trace validation of recorded RPC-level and Contractor-call-level executions; per-commit signature and consensus oracles',
   ref='5 C08 / 11.4'),
+ "C05": dict(
+  level='model_checking',
+  text="Pool.tla (family pool): submissions x blocks applied and reverted on fork trees that confirm, un-confirm and invalidate pooled transactions, with a fully permissive Revalidate (any prefix-valid pool over what was ever offered that contains the must-keep set): PrefixValid, Retention, NoInvention, Minable, RetentionSatisfiable; eviction with a small pool bound. On the real node, after EVERY reported pool: prefix-by-prefix validation with core on a fresh MidState of the independent ledger's tip state (every v2 proof checked against the tip accumulator independently of revalidatePool), a block mined from the pool (own assembly and coreutils.MineBlock) accepted by a copy of the node and a fresh linear twin, Go-side retention tracking; the thorough tier fills the pool to 20 M weight with 1 MB transactions.",
+  note="Retention tracked for siacoin transactions without height-dependent validity; 'full' = 95 % of the weight limit; must-keep is transitively closed over pooled parents. Finding C05-ephemeral-child-dropped repaired (090729e). Concurrent pool access not driven.",
+  technique='TLA+ spec Pool.tla + TLC exhaustive on abstract scenarios; stimulus edge cover of the TLC graph executed on a real Manager with concrete audits; TLC trace validation of every call; deviation probes',
+  ref='5 C05 / 11.4'),
+ "C13": dict(
+  level='model_checking',
+  text='Pool.tla (family rebase): every (from, to) pair of a fork tree x sets with confirmed, ephemeral and mixed parents x corruptions, MaxDist 3 in the model and 144 in the trace cfg (pairs at 143-146 on long branches): RebaseResult, RebaseErrors, ParentsFirst, BasisIsTip, TxSetErrors. On the real node every returned leaf index and Merkle proof is compared with the independent ledger at the target; corrupt proof / leaf index / proof length / basis must give an error and never a panic; caller-owned transactions are deep-compared before/after; contract revisions, expirations and storage proofs occur in the rebased sets.',
+  note='from = to is returned as is and not judged; elements spent on the way are counted, not compared. Findings C13-ephemeral-input-rejected and C13-txset-stale-basis-parents repaired (090729e, f0cb28d).',
+  technique='TLA+ spec Pool.tla + TLC exhaustive on abstract scenarios; stimulus edge cover of the TLC graph executed on a real Manager with concrete audits; TLC trace validation of every call; deviation probes',
+  ref='5 C13 / 11.4'),
+ "C14": dict(
+  level='model_checking',
+  text='Pool.tla (family contract): TLC explores every pool state x submitted set (every injective set <= 3 of a catalogue with a parent/child pair, a conflicting pair of each version, a v1 child; corruption at each position; unknown basis) x lookup of v1, v2, unpooled and unknown ids through both lookup functions, in a v1+v2 and a v2-only regime: Atomicity, KnownIffAllPooled, LookupExact. An edge cover of that graph and random histories are executed on a real Manager; every reply and reported pool is validated by TLC; atomicity and lookups are audited in Go; caller memory is deep-compared before/after and mutated afterwards, query results are mutated and reordered.',
+  note='A not-self-contained all-pooled set may answer known or error (statement ambiguous). Findings C14-partial-add-on-pool-conflict and C14-lookup-shared-index repaired (8744436, 10ed288).',
+  technique='TLA+ spec Pool.tla + TLC exhaustive on abstract scenarios; stimulus edge cover of the TLC graph executed on a real Manager with concrete audits; TLC trace validation of every call; deviation probes',
+  ref='5 C14 / 11.4'),
+ "C18": dict(
+  level='model_checking',
+  text="TLC decides Limits.tla over complete reachable state spaces for small constants with every interleaving and Close at every moment: the per-peer semaphore (blocking), the per-subnet counter (non-blocking, drop), the thread group and Run's teardown, and the connection lifecycle with AllowCheck, Handshake and AddPeer as separate steps; PerPeerCap, PerSubnetCap, NoSlotLeak, BackPressureNotDrop, PeerCaps, StopWaits, AddAfterStopRejected, deadlock freedom, liveness StopReturns/RpcsSettle under fairness; the two (repaired) implementation-shaped deviations are shown to break PeerCaps and StopReturns. Every transition of the settled-state graphs is replayed on real Syncers (handlers gated inside a blocking ChainManager wrapper, handshakes gated in PeerStore), ThreadGroup, rhp4.Server and SingleAddressWallet.Close with the observable state compared after each step and a goroutine inventory at the end; every event of randomised bursts (1-8 peers, Close at a random moment, -race in thorough) is validated by TLC against LimitsTrace.tla.",
+  note='Trusted: TLC, Go scheduler, mux, loopback TCP. Only SendV2Blocks handlers are gated; subnets are /32 loopback; settled-state replay uses a 10 s deadline and a 12 ms stability window with one retry. Hook syncer/verif_export.go. Findings C18-inbound-cap-check-then-act and C18-close-blocked-by-unswept-peer repaired (7ef24f9, 98a7196).',
+  technique='TLA+ spec Limits.tla + TLC exhaustive and liveness; eager-graph edge-cover replay with ChainManager/PeerStore/Settings/wallet-store gates; TLC trace validation with demand-driven hidden steps; race-detector run',
+  ref='5 C18 / 11.4'),
+ "C11": dict(
+  level='model_checking',
+  text='TLC decides Sync.tla (family byzantine): a victim, an honest peer and a Byzantine peer that answers every request with any element of the corruption catalogue and relays anything: AlwaysValid, WorkMonotone, ProvableMisbehaviourBanned, NoHonestBan, liveness HonestProgress with fairness on honest actions only. Macro-steps of its graph at the real constants are replayed on a real victim against a scripted gateway peer (core/gateway); 150 (quick) / 561 (thorough) scenarios run a real victim syncer with real honest peers and scripted Byzantine peers (56 corruption kinds, every position in a batch, v1 / v2-below-require / pre-validated regimes, both instant-sync checkpoint-binding attacks, colluding peers). After each scenario: process alive, work never decreased, best chain audited by a linear twin, honest heaviest tip reached within the deadline, Ban recorded for provable classes; all recorded ChainManager/PeerStore calls are TLC-validated.',
+  note="Corruptions go through core/gateway's public API; insufficient work only possible above the final cut; a ban is required only for the classes the code treats as provable; deadlines >= 10x nominal with retries. Finding C11-outline-sidechain-parent repaired (6ac3149).",
+  technique='TLA+ spec (SyncChain / Sync / SyncMC) + TLC safety and liveness; macro-step replay into a real syncer; TLC trace validation of recorded ChainManager / PeerStore logs; linear-twin audit; scripted Byzantine gateway peer; oracle classifying every crafted block',
+  ref='5 C11 / 11.4'),
+ "C12": dict(
+  level='model_checking',
+  text="TLC decides Sync.tla for 2-3 honest nodes over complete reachable state spaces of small trees: every admissible branch assignment, every connection order of line and triangle topologies, every interleaving, history sample and request split scaled to 2: best-chain validity and linkage, work monotonicity, no ban of an honest peer, and Convergence under weak fairness without state constraint. Bound to the code by replaying an edge cover of the graph at the real constants on a real syncer, and by 41 (quick) / 536 (thorough) real loopback networks at the real boundaries (2-5 nodes; fork depths 0,1,9,10,11,17,40,99,100,101,250; three hardfork configurations; checkpoint-bootstrapped nodes; line/star/ring/tailed-triangle topologies; every connection order; batch options and peer limits) with each node's best chain audited against a linear twin and every syncer->ChainManager / PeerStore call validated by TLC against SyncTrace.tla.",
+  note='Premises: one tip sufficiently heavier than the others; tips re-announced (outline for v2 tips); final tip v2; checkpoints far enough below the forks. Findings repaired: 6ac3149, 209e097, e06d31d. Trusted: TLC, Go runtime, OS loopback TCP, the oracle.',
+  technique='TLA+ spec (SyncChain / Sync / SyncMC) + TLC safety and liveness; macro-step replay into a real syncer; TLC trace validation of recorded ChainManager / PeerStore logs; linear-twin audit',
+  ref='5 C12 / 11.4'),
 }
 
 NOT_APPLICABLE = {
 }
 
-HOOK_COMMITS = ["cdd4f9a", "e9c8015"]
+HOOK_COMMITS = ["cdd4f9a", "e9c8015", "e8659e1"]
 
 
 def main():
